@@ -86,6 +86,16 @@ pub fn parse_tag(i: &[u8]) -> nom::IResult<&[u8], StructureTag> {
     ))
 }
 
+#[cfg(feature = "verif")]
+pub fn verif_parse_length(i: &[u8]) -> nom::IResult<&[u8], usize> {
+    parse_length(i)
+}
+
+#[cfg(feature = "verif")]
+pub fn verif_parse_type_header(i: &[u8]) -> nom::IResult<&[u8], (TagClass, TagStructure, u64)> {
+    parse_type_header(i)
+}
+
 pub struct Parser;
 
 impl Parser {
